@@ -42,13 +42,14 @@ MODE_TAG = ["", "+pre_expand", "+expand_all"]
 NSH = 16
 QUICK_SAMPLED = 8000       # per shard
 THOROUGH_SAMPLED = 180000  # per shard
+FAMILY = {"pf_": "pf_if", "et_": "et_div_nl"}  # filler/decoration families -> canonical member
 ID_RE = re.compile(r"(?<![A-Za-z0-9])([HIF]\d+)(?![A-Za-z0-9])")
 
 
 def bounds(tier):
     if tier == "quick":
-        return {"hlen": 3, "hfill": ["para", "none", "pf_if", "pf_nest"], "llen": 2, "lfill": G.F_KINDS}
-    return {"hlen": 4, "hfill": G.F_KINDS + ["none"], "llen": 3, "lfill": ["para", "blank", "div", "table", "tmpl", "span", "pf_if", "pf_nest"]}
+        return {"hlen": 3, "hfill": ["para", "none", "pf_if", "pf_nest", "et_div_nl"], "llen": 2, "lfill": G.F_KINDS}
+    return {"hlen": 4, "hfill": G.F_KINDS + ["none"], "llen": 3, "lfill": ["para", "blank", "div", "table", "tmpl", "span", "pf_if", "pf_nest", "et_div_nl"]}
 
 
 def expected_exhaustive(tier):
@@ -414,10 +415,17 @@ class Monitor:
                     break
         # 2. simplify decorations / fillers / rule length
         for i, ln in enumerate(cur):
-            # canonical replacements, simplest first (a parser-function block falls back to the plainest one)
-            for key, plains in (("deco", ("plain", "pf_if")), ("fk", ("para", "pf_if")), ("n", (4,))):
-                for plain in plains:
-                    if key in cur[i] and cur[i][key] != plain and not (plain == "pf_if" and not str(cur[i][key]).startswith("pf_")):
+            # canonical replacements, simplest first (a block of a family falls back to the family's plainest member)
+            for key, plains in (("deco", ("plain",)), ("fk", ("para",)), ("n", (4,))):
+                val = cur[i].get(key)
+                if val is None:
+                    continue
+                cands = list(plains)
+                for pre, canon_kind in FAMILY.items():
+                    if str(val).startswith(pre):
+                        cands.append(canon_kind)
+                for plain in cands:
+                    if cur[i][key] != plain:
                         cand = [dict(x) for x in cur]
                         cand[i][key] = plain
                         if holds(cand):
